@@ -1,12 +1,12 @@
 (* C05 - Builds always terminate and report failure faithfully.
-   Stated over every run of the scheduler LTS (Model/Sched.v).  This file holds only the statement, the property theorem
-   and its non-vacuity examples.  Unlike C04 there is no refutation: the one violation found (with --keep_going a failed
-   build command left its target in forwardResults' activeTargets for ever, so the cycle check never ran again and a build
-   that also contained a dependency cycle hung) was repaired in /repo (commit "fix: with --keep_going a build failure
-   disabled cycle detection for the rest of the run"); the model follows the repaired code.  Two conjuncts of the
-   statement - absence of deadlock and the "only if" half of the exit-status clause - are NOT proved (see C05_partial and
-   the level text); they are covered by trace validation and the oracle only. *)
-From PlzV Require Import Base.Harness Model.Sched Proof.Sched_Base Proof.Sched_Inv Proof.Sched_Deps Proof.C04 Proof.Sched_Measure Proof.C05.
+   Stated over every run of the scheduler LTS (Model/Sched.v).  This file holds only the statement, the property theorems
+   and their non-vacuity examples.  There is no refutation: the one violation found while modelling (with --keep_going a
+   failed build command left its target in forwardResults' activeTargets for ever, so the cycle check never ran again and
+   a build that also contained a dependency cycle hung) was repaired in /repo (commit 9c1ce3e "fix: with --keep_going a
+   build failure disabled cycle detection for the rest of the run"); the model follows the repaired code and the hang
+   witness stays in the harness' adversarial stream.  Every conjunct of the statement is proved (C05_full), for all
+   graphs, thread counts, --keep_going settings and all interleavings. *)
+From PlzV Require Import Base.Harness Model.Sched Proof.Sched_Base Proof.Sched_Inv Proof.Sched_Deps Proof.C04 Proof.Sched_Measure Proof.C05 Proof.C05_Defs Proof.C05_Live Proof.C05_Exit.
 
 (* the labels an invocation needs: the requested ones and, transitively, their dependencies *)
 Definition needed (g : graph) (l : nat) : Prop := In l (g_req g) \/ exists r, In r (g_req g) /\ tdep g r l.
@@ -29,32 +29,39 @@ Definition C05_statement : Prop :=
        (exists o, built_kind o = true /\ In (OEnd d (RBuilt o)) (trace s)) /\
        ~ In (OEnd d RFailed) (trace s) /\ ~ In (OEnd d RDepFailed) (trace s)).
 
-(* What is proved, for all graphs, thread counts, --keep_going settings and all runs: *)
+Theorem C05_full : C05_statement.
+Proof. exact C05_all. Qed.
+Print Assumptions C05_full.
+
+(* Behind the bound: the measure mu strictly decreases with every step of every run, and the "if" half of the exit
+   status holds at any time, not only at the end (kept from the first round; no wf hypothesis needed). *)
 Theorem C05_partial :
   forall g,
     (forall ls s, run g (init g) ls = Some s -> length ls + mu g s <= mu_bound g) /\
     (forall s l, reachable g s -> enabled g s l = true -> mu g (apply g s l) < mu g s) /\
-    (forall s, reachable g s -> exited s = true ->
-       quiet s /\ forall t, tstarts t (trace s) = 1 -> tends t (trace s) = 1 /\ completed (ts s t) = true) /\
-    (* exit status, the "if" half: a failed or dependency-failed target, a failed final result, a missing-dependency or
-       cycle error in the log all make the exit status non-zero - at any time, hence at the end *)
     (forall s, reachable g s ->
-       ((exists t, (12 <= rank (ts s t))%N) \/ (exists o, In o (trace s) /\ bad_event o = true)) -> failed s = true) /\
-    (forall s, reachable g s -> forall t, In (OStart t) (trace s) -> forall d, tdep g t d ->
-       (exists o, built_kind o = true /\ In (OEnd d (RBuilt o)) (trace s)) /\
-       ~ In (OEnd d RFailed) (trace s) /\ ~ In (OEnd d RDepFailed) (trace s)).
-Proof.
-  intros g. split; [exact (run_length_bound g)|].
-  split; [intros s l Hr He; apply mu_step; [apply (J_reachable g s Hr) | exact He]|].
-  split; [intros s Hr Hx; split; [exact (exited_quiet g s Hr Hx) | exact (started_ended_at_exit g s Hr Hx)]|].
-  split; [|exact (no_run_after_failed_dep g)].
-  intros s Hr [[t Ht]|Hb]; [exact (F_reachable g s Hr t Ht) | exact (bad_event_failed g s Hr Hb)].
-Qed.
+       ((exists t, (12 <= rank (ts s t))%N) \/ (exists o, In o (trace s) /\ bad_event o = true)) -> failed s = true).
+Proof. exact C05_steps. Qed.
 Print Assumptions C05_partial.
 
-(* Non-vacuity: the run found for an event sequence observed on the real plz (diamond, failing middle target,
-   --keep_going): it ends (exited), a command started whose dependency chain is non-empty, a target is
-   "dependency failed", the exit status is non-zero, and the bound is a concrete number. *)
+(* A dependency cycle among the needed labels always ends in a non-zero exit status (corollary of C05_full). *)
+Theorem C05_cycle_reported : forall g, wf g -> forall s, reachable g s -> exited s = true ->
+  (exists l, needed g l /\ tdep g l l) -> failed s = true.
+Proof. exact cycle_exit_nonzero. Qed.
+Print Assumptions C05_cycle_reported.
+
+(* A state in which only the inactivity timer can move contains a dependency cycle through a needed label; the timer
+   step is enabled for it and makes the exit status non-zero (corollary of the no-deadlock conjunct). *)
+Theorem C05_quiescent_cycle : forall g, wf g -> forall s, reachable g s -> exited s = false ->
+  (forall l, enabled g s l = true -> exists c, l = LTimerCycleCheck c) ->
+  exists a c, enabled g s (LTimerCycleCheck (a :: c)) = true /\ needed g a /\ tdep g a a /\
+              failed (apply g s (LTimerCycleCheck (a :: c))) = true.
+Proof. exact only_timer_means_cycle. Qed.
+Print Assumptions C05_quiescent_cycle.
+
+(* Non-vacuity 1: the run found for an event sequence observed on the real plz (diamond, failing middle target,
+   --keep_going): the graph is well-formed, the run ends (exited), a command started whose dependency chain is
+   non-empty, a target is "dependency failed", the exit status is non-zero, and the bound is a concrete number. *)
 Definition g_d : graph := graph_of [0;0;0;0] [[];[0];[0];[1;2]] [true;true;true;true] [true] [3;1] true 4.
 Definition ev_d : list ev :=
   [EvStart 0; EvEnd 0 (RBuilt Built); EvStart 1; EvStart 2; EvEnd 2 RFailed; EvEnd 1 (RBuilt Built); EvEnd 3 RDepFailed].
@@ -69,4 +76,39 @@ Proof.
   split; [vm_compute; reflexivity|]. split; [vm_compute; reflexivity|].
   split; [vm_compute; tauto|]. split; [apply tdep_one; vm_compute; tauto|].
   split; vm_compute; reflexivity.
+Qed.
+
+(* Non-vacuity 2 (exit status zero): target 0 depends on target 1, both build; the run ends with exit status zero and
+   both needed labels - the requested one and its dependency - are built.  The hypotheses of C05_full hold (wf). *)
+Definition g_ok : graph := graph_of [0;0] [[1];[]] [true;true] [true] [0] false 2.
+Definition ev_ok : list ev := [EvStart 1; EvEnd 1 (RBuilt Built); EvStart 0; EvEnd 0 (RBuilt Built)].
+Definition ls_ok : list label := match witness g_ok [] ev_ok with Some ls => ls | None => [] end.
+Definition s_ok : state := match run g_ok (init g_ok) ls_ok with Some s => s | None => init g_ok end.
+Example C05_nonvacuous_ok :
+  wf g_ok /\ run g_ok (init g_ok) ls_ok <> None /\ exited s_ok = true /\ failed s_ok = false /\
+  needed g_ok 0 /\ needed g_ok 1 /\ is_built (ts s_ok 0) = true /\ is_built (ts s_ok 1) = true.
+Proof.
+  split; [apply wf_of; [reflexivity | intros t Ht; apply graph_of_deps_out; exact Ht | reflexivity | cbn; auto with arith]|].
+  split; [vm_compute; discriminate|]. split; [vm_compute; reflexivity|]. split; [vm_compute; reflexivity|].
+  split; [left; cbn; auto|]. split; [right; exists 0; split; [cbn; auto | apply tdep_one; cbn; auto]|].
+  split; vm_compute; reflexivity.
+Qed.
+
+(* Non-vacuity 3 (the blocked wait-for chain): targets 0 and 1 depend on each other.  After 14 steps both
+   queueTargetAsync goroutines wait for each other: the run has not ended, the cycle check is enabled for the cycle
+   0 -> 1 -> 0, and the run that takes it ends with a non-zero exit status; 0 is needed and lies on a cycle. *)
+Definition g_c : graph := graph_of [0;0] [[1];[0]] [true;true] [true] [0] false 2.
+Definition ls_c : list label := match witness g_c [] [EvErr 0 [0;1]] with Some ls => ls | None => [] end.
+Definition s_b : state := match run g_c (init g_c) (firstn 14 ls_c) with Some s => s | None => init g_c end.
+Definition s_c : state := match run g_c (init g_c) ls_c with Some s => s | None => init g_c end.
+Example C05_nonvacuous_cycle :
+  wf g_c /\ run g_c (init g_c) (firstn 14 ls_c) <> None /\ exited s_b = false /\
+  asy s_b 0 = AWait [1] /\ asy s_b 1 = AWait [0] /\ enabled g_c s_b (LTimerCycleCheck [0;1]) = true /\
+  run g_c (init g_c) ls_c <> None /\ exited s_c = true /\ failed s_c = true /\ needed g_c 0 /\ tdep g_c 0 0.
+Proof.
+  split; [apply wf_of; [reflexivity | intros t Ht; apply graph_of_deps_out; exact Ht | reflexivity | cbn; auto with arith]|].
+  split; [vm_compute; discriminate|]. split; [vm_compute; reflexivity|]. split; [vm_compute; reflexivity|].
+  split; [vm_compute; reflexivity|]. split; [vm_compute; reflexivity|]. split; [vm_compute; discriminate|].
+  split; [vm_compute; reflexivity|]. split; [vm_compute; reflexivity|]. split; [left; cbn; auto|].
+  apply (tdep_step g_c 0 1 0); [cbn; auto | apply tdep_one; cbn; auto].
 Qed.
